@@ -388,7 +388,7 @@ theorem rateNd_two (mid : ℚ → ℚ → ℚ) (ax1 ax2 : List ℚ) (o : ℕ) (m
     rateNd mid [ax1, ax2] o (box2 m) [i, j] =
       if i = o ∧ j = o then 0
       else m (cellLo mid ax1 i) (cellHiN mid ax1.length ax1 i) (cellLo mid ax2 j) (cellHiN mid ax2.length ax2 j) := by
-  unfold rateNd cellBox len0 box2
+  unfold rateNd cellBox box2 cellHi
   simp
 
 section two_axes
@@ -399,7 +399,7 @@ include hm hi hax1 hax2 hM
 
 /-- the grid-sum lemma on the chain's own cells: a block of states `[p1,q1) × [p2,q2)` that does not contain the
     origin carries the mass of its hull -/
-theorem block_sum_2d (p1 q1 p2 q2 : ℕ) (h1 : p1 < q1) (hq1 : q1 ≤ ax1.length) (h2 : p2 < q2) (hq2 : q2 ≤ ax1.length)
+theorem block_sum_2d (p1 q1 p2 q2 : ℕ) (h1 : p1 < q1) (hq1 : q1 ≤ ax1.length) (h2 : p2 < q2) (hq2 : q2 ≤ ax2.length)
     (hex : ¬(p1 ≤ o ∧ o < q1) ∨ ¬(p2 ≤ o ∧ o < q2)) :
     ∑ i ∈ Ico p1 q1, ∑ j ∈ Ico p2 q2, rateNd mid [ax1, ax2] o (box2 m) [i, j] =
       m (bnd mid ax1.length ax1 p1) (bnd mid ax1.length ax1 q1) (bnd mid ax2.length ax2 p2) (bnd mid ax2.length ax2 q2) := by
@@ -434,16 +434,18 @@ theorem intensityNd_two :
       let f := bnd mid ax1.length ax1
       let g := bnd mid ax2.length ax2
       let n := ax1.length
-      m (f o) (f (o + 1)) (g 0) (g o) + m (f o) (f (o + 1)) (g (o + 1)) (g n) +
-      m (f 0) (f o) (g o) (g (o + 1)) + m (f 0) (f o) (g 0) (g o) + m (f 0) (f o) (g (o + 1)) (g n) +
-      m (f (o + 1)) (f n) (g o) (g (o + 1)) + m (f (o + 1)) (f n) (g 0) (g o) + m (f (o + 1)) (f n) (g (o + 1)) (g n) := by
+      let n' := ax2.length
+      m (f o) (f (o + 1)) (g 0) (g o) + m (f o) (f (o + 1)) (g (o + 1)) (g n') +
+      m (f 0) (f o) (g o) (g (o + 1)) + m (f 0) (f o) (g 0) (g o) + m (f 0) (f o) (g (o + 1)) (g n') +
+      m (f (o + 1)) (f n) (g o) (g (o + 1)) + m (f (o + 1)) (f n) (g 0) (g o) + m (f (o + 1)) (f n) (g (o + 1)) (g n') := by
   have hon1 : o < ax1.length := by have := hax1.hi; omega
+  have hon2 : o < ax2.length := by have := hax2.hi; omega
   have hn1 : 0 < ax1.length := by omega
   have hn2 : 0 < ax2.length := by omega
   have a1 := hLeft_eq_bnd mid ax1.length ax1 o hon1 hax1.zero
   have a2 := hRight_eq_bnd mid ax1.length ax1 o hon1 hax1.zero
-  have a3 := hLeft_eq_bnd mid ax2.length ax2 o hon1 hax2.zero
-  have a4 := hRight_eq_bnd mid ax2.length ax2 o hon1 hax2.zero
+  have a3 := hLeft_eq_bnd mid ax2.length ax2 o hon2 hax2.zero
+  have a4 := hRight_eq_bnd mid ax2.length ax2 o hon2 hax2.zero
   have b1 := bnd_zero mid hm hi ax1 hax1.inc hn1
   have b2 := bnd_last mid hm hi ax1 hax1.inc hn1
   have b3 := bnd_zero mid hm hi ax2 hax2.inc hn2
@@ -459,27 +461,29 @@ theorem sum_rates_eq_intensity_2d :
     ∑ i ∈ range ax1.length, ∑ j ∈ range ax2.length, rateNd mid [ax1, ax2] o (box2 m) [i, j] =
       intensityNd mid [ax1, ax2] o (box2 m) := by
   have hon : o < ax1.length := by have := hax1.hi; omega
+  have hon2 : o < ax2.length := by have := hax2.hi; omega
   have hlo := hax1.lo
   have hhi := hax1.hi
+  have hhi2 := hax2.hi
   rw [intensityNd_two mid hm hi ax1 ax2 o hax1 hax2 m hM]
   have B := block_sum_2d mid hm hi ax1 ax2 o hax1 hax2 m hM
   rw [sum_range_three _ o _ hon]
-  simp only [sum_range_three _ o _ hon, sum_add_distrib]
+  simp only [sum_range_three _ o _ hon2, sum_add_distrib]
   rw [B o (o + 1) 0 o (by omega) (by omega) (by omega) (by omega) (by omega),
-    B o (o + 1) (o + 1) ax1.length (by omega) (by omega) (by omega) (by omega) (by omega),
+    B o (o + 1) (o + 1) ax2.length (by omega) (by omega) (by omega) (by omega) (by omega),
     B 0 o o (o + 1) (by omega) (by omega) (by omega) (by omega) (by omega),
     B 0 o 0 o (by omega) (by omega) (by omega) (by omega) (by omega),
-    B 0 o (o + 1) ax1.length (by omega) (by omega) (by omega) (by omega) (by omega),
+    B 0 o (o + 1) ax2.length (by omega) (by omega) (by omega) (by omega) (by omega),
     B (o + 1) ax1.length o (o + 1) (by omega) (by omega) (by omega) (by omega) (by omega),
     B (o + 1) ax1.length 0 o (by omega) (by omega) (by omega) (by omega) (by omega),
-    B (o + 1) ax1.length (o + 1) ax1.length (by omega) (by omega) (by omega) (by omega) (by omega)]
+    B (o + 1) ax1.length (o + 1) ax2.length (by omega) (by omega) (by omega) (by omega) (by omega)]
   have hc : ∑ i ∈ Ico o (o + 1), ∑ j ∈ Ico o (o + 1), rateNd mid [ax1, ax2] o (box2 m) [i, j] = 0 := by
     rw [Nat.Ico_succ_singleton, sum_singleton, sum_singleton, rateNd_two]; simp
   rw [hc]
   ring
 
 /-- all 2-d rates are non-negative -/
-theorem rates_nonneg_2d (i j : ℕ) (hi' : i < ax1.length) (hj' : j < ax1.length) :
+theorem rates_nonneg_2d (i j : ℕ) (hi' : i < ax1.length) (hj' : j < ax2.length) :
     0 ≤ rateNd mid [ax1, ax2] o (box2 m) [i, j] := by
   by_cases h : i = o ∧ j = o
   · rw [rateNd_two, if_pos h]
